@@ -339,6 +339,66 @@ def long_array_cases():
         yield {'name': f"long_arrays|{name}", 'ok': not probs, 'detail': '; '.join(probs[:2])}
 
 
+def key_order_cases():
+    """model parameters are a dictionary by name: a model whose params were assigned with the keys in another order (reversed, sorted)
+    evaluates to the same loading, pressure and spreading pressure, bare and through a model isotherm"""
+    import warnings
+    import pygaps
+    from pgv.checks.models_common import DOMAIN
+    pygaps.logger.disabled = True
+    meta = dict(material='pgv_c10', adsorbate='nitrogen', temperature=77.355, pressure_mode='absolute', pressure_unit='bar', loading_basis='molar',
+                loading_unit='mmol', material_basis='mass', material_unit='g', temperature_unit='K')
+    xs = numpy.array([0.05, 0.2, 0.45])
+    for name in sorted(DOMAIN):
+        def fresh():
+            r = _model(name, None, {})
+            # distinct values, so that a value taken by position instead of by name shows
+            for i, k in enumerate(list(r.params)):
+                r.params[k] = r.params[k] * (1 + 0.17 * i) if DOMAIN[name][k] != 'unit' else min(0.9, r.params[k] * (1 + 0.17 * i))
+            if name in ('DR', 'DA'):
+                r.params['e'] = 6000.0
+            return r
+        ref = fresh()
+        probs = []
+        with warnings.catch_warnings():
+            warnings.simplefilter('ignore')
+            for oname, reorder in (('reversed', lambda d: {k: d[k] for k in list(d)[::-1]}), ('sorted', lambda d: {k: d[k] for k in sorted(d)})):
+                m = fresh()
+                m.params = reorder(dict(ref.params))
+                if list(m.params) == list(ref.params):
+                    continue
+                for meth in ('loading', 'pressure', 'spreading_pressure'):
+                    try:
+                        a = numpy.asarray([numpy.asarray(getattr(ref, meth)(float(x)), dtype=float).ravel()[0] for x in xs])
+                    except Exception:
+                        continue
+                    try:
+                        b = numpy.asarray([numpy.asarray(getattr(m, meth)(float(x)), dtype=float).ravel()[0] for x in xs])
+                        if not numpy.allclose(a, b, rtol=1e-9, equal_nan=True):
+                            probs.append(f"{meth} with keys {list(m.params)}: {b} vs {a}")
+                    except Exception as exc:
+                        probs.append(f"{meth} with keys {list(m.params)}: {type(exc).__name__}: {exc}"[:140])
+                try:
+                    ra, rb = fresh(), fresh()
+                    rb.params = reorder(dict(ra.params))
+                    for r_ in (ra, rb):
+                        r_.pressure_range, r_.loading_range = (0.0, 10.0), (0.0, 10.0)
+                    ia, ib = pygaps.ModelIsotherm(model=ra, **meta), pygaps.ModelIsotherm(model=rb, **meta)
+                    if ia.iso_id != ib.iso_id:
+                        probs.append(f"identifier differs with keys {list(m.params)}")
+                except Exception:
+                    pass
+        yield {'name': f"parameter_key_order|{name}", 'ok': not probs, 'detail': '; '.join(probs[:2])}
+
+
+@replayer('c10.key_order')
+def _key_order(spec, model):
+    for r in key_order_cases():
+        if r['name'] == spec['name']:
+            return {'confirmed': not r['ok'], 'observed': r['detail'], 'expected': 'the same values whatever order the parameter dictionary was written in'}
+    return {'confirmed': False, 'error': 'case not found'}
+
+
 @replayer('c10.long')
 def _long(spec, model):
     for r in long_array_cases():
